@@ -12,5 +12,6 @@ CONSTANTS
   MaxChunk = 2
   FixedCode = FALSE
   LateTrack = FALSE
+  AtomicUnbond = TRUE
 INVARIANTS TypeOK PendingIsSumOfUnsettled ZeroWhenSettled WithinMax RecordMatchesOpen OpenWillBeReleased
 CHECK_DEADLOCK FALSE
